@@ -536,6 +536,72 @@ fn pad_panel_line_to_width(
     }
 }
 
+/// Verification hook: `pad_panel_line_to_width` on a given painted panel line, with the
+/// fill decision (`get_right_fill_style_for_panel`) it used.
+#[cfg(dandavison_delta_verif)]
+pub fn verif_pad_panel_line_to_width(
+    panel_line: &str,
+    panel_line_is_empty: bool,
+    has_line_index: bool,
+    state: &str,
+    panel_side: &str,
+    fill: &str,
+    config: &Config,
+) -> Result<(String, &'static str, Style, usize), String> {
+    use crate::delta::DiffType;
+    let (state, style) = match state {
+        "m" => (
+            State::HunkMinus(DiffType::Unified, None),
+            config.minus_style,
+        ),
+        "p" => (State::HunkPlus(DiffType::Unified, None), config.plus_style),
+        "z" => (State::HunkZero(DiffType::Unified, None), config.zero_style),
+        _ => return Err(format!("bad state: {state}")),
+    };
+    let side = match panel_side {
+        "l" => Left,
+        "r" => Right,
+        _ => return Err(format!("bad side: {panel_side}")),
+    };
+    let should_fill = match fill {
+        "ansi" => BgShouldFill::With(BgFillMethod::TryAnsiSequence),
+        "spaces" => BgShouldFill::With(BgFillMethod::Spaces),
+        "no" => BgShouldFill::No,
+        _ => return Err(format!("bad fill: {fill}")),
+    };
+    let sections: Vec<LineSections<'_, Style>> = vec![vec![(style, "x")]];
+    let homolog = [false];
+    let line_index = if has_line_index { Some(0) } else { None };
+    let (mode, fill_style) = get_right_fill_style_for_panel(
+        panel_line_is_empty,
+        line_index,
+        &sections,
+        Some(&homolog),
+        &state,
+        side,
+        should_fill,
+        config,
+    );
+    let mut line = panel_line.to_string();
+    pad_panel_line_to_width(
+        &mut line,
+        panel_line_is_empty,
+        line_index,
+        &sections,
+        Some(&homolog),
+        &state,
+        side,
+        should_fill,
+        config,
+    );
+    let mode = match mode {
+        None => "none",
+        Some(BgFillMethod::TryAnsiSequence) => "ansi",
+        Some(BgFillMethod::Spaces) => "spaces",
+    };
+    Ok((line, mode, fill_style, config.side_by_side_data[side].width))
+}
+
 pub mod ansifill {
     use super::SideBySideData;
     use crate::config::Config;
